@@ -391,14 +391,14 @@ func (m *CiphertextMetaData) UnmarshalJSON(p []byte) (err error) {
 
 	if y, err := hexconv(aux.IsNTT); err != nil {
 		return err
-	} else if y == 1 {
-		m.IsNTT = true
+	} else {
+		m.IsNTT = y == 1
 	}
 
 	if y, err := hexconv(aux.IsMontgomery); err != nil {
 		return err
-	} else if y == 1 {
-		m.IsMontgomery = true
+	} else {
+		m.IsMontgomery = y == 1
 	}
 
 	return
